@@ -86,7 +86,8 @@ def c07(tier, hook=None):
                         continue          # a type parameter must be used by some field
                     guises.append((sh, mask, entry, generic, (), None))
         # Clone next to other derived traits / with bound(...) arguments: the Clone impl must not change
-        for extra, bounds in ((("Copy",), None), (("Debug", "PartialEq"), None), ((), "shared_empty"), ((), "this_dd"), (("Copy",), "shared_dd")):
+        for extra, bounds in ((("Copy",), None), (("Debug", "PartialEq"), None), ((), "shared_empty"), ((), "this_dd"), (("Copy",), "shared_dd"),
+                              (("Eq", "PartialEq"), None), (("Ord", "PartialOrd", "Eq", "PartialEq", "Hash", "Debug"), None), (("Copy", "Eq", "PartialEq"), None)):
             for entry in (("attr", "derive") if tier == "thorough" else ("attr",)):
                 guises.append((sh, masks[-1], entry, False, extra, bounds))
         # explicit discriminants on every variant (primitive repr), tuple and named guises
@@ -199,7 +200,13 @@ def c08(tier, hook=None):
         for (n, kind) in ((1, "tuple"), (2, "named")):
             for entry in ("attr", "derive"):
                 guises.append((n, kind, entry, True, None, sb))
-    mods = [(i, rf.ops_module(i, g[0], g[1], g[2], generic=g[3], bounds=g[4], selfbound=(g[5] if len(g) > 5 else None))) for i, g in enumerate(guises)]
+    # layout attributes: the Copy / alignment-1 guise of the term algebra inside repr(C) / repr(packed) structs
+    for rp in ("C", "packed", "C, packed", "packed(1)", "align(8)"):
+        for (n, kind) in ((2, "tuple"), (3, "named")):
+            guises.append((n, kind, "attr" if kind == "tuple" else "derive", False, None, None, "Tc", rp))
+    guises.append((2, "named", "attr", False, None, None, "Tc", None))
+    mods = [(i, rf.ops_module(i, g[0], g[1], g[2], generic=g[3], bounds=g[4], selfbound=(g[5] if len(g) > 5 else None),
+                              leaf=(g[6] if len(g) > 6 else "Tm"), repr_=(g[7] if len(g) > 7 else None))) for i, g in enumerate(guises)]
     mods = T(mods)
     res, failed = run_modules(mods, "c08")
     events, meta = [], []
@@ -250,6 +257,8 @@ def impl_forms_of(resp, op):
             continue
         l = "r" if it["self_ty"].startswith("&") else "v"
         r = "r" if it["trait_args"].startswith("&") else "v"
+        if it["trait_args"].replace(" ", "") == "Self":      # the user's own header may spell its right operand through `Self`
+            r = l
         if it["trait"].split("::")[-1] == op:
             binf.append([l, r])
         elif it["trait"].split("::")[-1] == op + "Assign":
@@ -278,6 +287,15 @@ def c09(tier, hook=None):
                     mods.append((idx, src))
                     descs.append(d)
                     reqs.append({"k": "expand", "id": idx, "entry": "attr", "attr": req["attr"], "item": req["item"]})
+                    # the same impl with its right operand spelled `Self` / `&Self` (where the self type allows it)
+                    self_is_ref = c["bl"] == "r" and not c["base_is_assign"]
+                    if rhs_self and generic is None and not (self_is_ref and c["br"] == "v"):
+                        idx = len(mods)
+                        src, req, d = rf.implop_module(idx, op, (c["bl"], c["br"]), True, c["want_bin"], c["want_assign"], c["base_is_assign"], spell_self=True)
+                        d["spell_self"] = True
+                        mods.append((idx, src))
+                        descs.append(d)
+                        reqs.append({"k": "expand", "id": idx, "entry": "attr", "attr": req["attr"], "item": req["item"]})
     resps = dx.expand(reqs)
     mods = T(mods)
     res, failed = run_modules(mods, "c09")
@@ -377,6 +395,25 @@ def debug_descs(tier, rnd):
             fs2 = fields(n, shape, ["none"] * (n - 1) + ["transparent"])
             fs2[-1]["gen"] = True
             descs.append({"kind": "struct", "generic": True, "maybe_unsized": True, "variants": [{"name": "S%d" % len(descs), "shape": shape, "fields": fs2}]})
+    # one field carrying BOTH transparent and ignore (transparent is unconditional), alone and next to others
+    for shape in ("tuple", "named"):
+        for n in (1, 2, 3):
+            for pos in range(n):
+                for others in ("none", "ignore"):
+                    dbgs = [others] * n
+                    dbgs[pos] = "both"
+                    descs.append({"kind": "struct", "variants": [{"name": "S%d" % len(descs), "shape": shape, "fields": fields(n, shape, dbgs)}]})
+                    descs.append({"kind": "enum", "variants": [{"name": "U0", "shape": "unit", "fields": []}, {"name": "V1", "shape": shape, "fields": fields(n, shape, dbgs)}]})
+    # names that are keywords (written as raw identifiers; printed without `r#` like the standard derive does)
+    kw = {"kind": "enum", "variants": [{"name": "match", "shape": "unit", "fields": []}, {"name": "loop", "shape": "tuple", "fields": fields(1, "tuple", ["none"])},
+                                        {"name": "fn", "shape": "named", "fields": fields(2, "named", ["none", "ignore"])}, {"name": "V3", "shape": "named", "fields": fields(1, "named", ["none"])}]}
+    kw["variants"][2]["fields"][0]["name"] = "if"
+    kw["variants"][3]["fields"][0]["name"] = "type"
+    descs.append(kw)
+    ks = {"kind": "struct", "variants": [{"name": "S%d" % len(descs), "shape": "named", "fields": fields(2, "named", ["none", "none"])}]}
+    ks["variants"][0]["fields"][0]["name"] = "while"
+    ks["variants"][0]["fields"][1]["name"] = "r"
+    descs.append(ks)
     # field-less enums (std prints the bare name)
     descs.append({"kind": "enum", "variants": [{"name": "Red", "shape": "unit", "fields": []}, {"name": "Green", "shape": "unit", "fields": []}]})
     return descs
@@ -451,7 +488,7 @@ def c10(tier, hook=None):
 # C11
 # ------------------------------------------------------------------------------------------------
 def default_descs(tier, rnd):
-    kinds = ["none", "str", "path", "assoc_path", "call", "block", "method", "int", "neg"]
+    kinds = ["none", "str", "path", "assoc_path", "into_path", "call", "block", "method", "int", "neg"]
     out = []
 
     def flds(n, choice=None):
@@ -574,6 +611,13 @@ def c18(tier, hook=None):
                     for where in ((False, True) if generic else (False,)):
                         cases.append((named, ti, generic, entry, where))
     mods = [(i, rf.deref_module(i, *c)) for i, c in enumerate(cases)]
+    # explicit bound(...) arguments (the struct's own where-clause is always retained)
+    for named in (False, True):
+        for bounds in ("this_empty", "shared_empty", "this_dd", "this_pred"):
+            for where in (False, True):
+                for entry in ("attr", "derive"):
+                    cases.append((named, 0, True, entry, where, bounds))
+                    mods.append((len(cases) - 1, rf.deref_module(len(cases) - 1, named, 0, True, entry, where, bounds)))
     # generic single-field structs whose field type mentions `Self`
     for entry in ("attr", "derive"):
         cases.append(("self_in_field_type", entry))
@@ -613,14 +657,23 @@ def c18(tier, hook=None):
                         else:
                             it2 = "struct X(%s);" % ", ".join((nested if j == pos else "") + "u8" for j in range(n))
                         rej.append((n, traits, it2))
+                    # neither may a helper attribute of a co-derived trait single out "the" field
+                    for pos in (0, n - 1):
+                        for co, mark in (("Debug", "#[debug(transparent)] "), ("Debug", "#[debug(ignore)] "), ("Default", "#[default(1)] "), ("Clone", "")):
+                            if shape == "named":
+                                it3 = "struct X { %s }" % ", ".join((mark if j == pos else "") + "f%d: u8" % j for j in range(n))
+                            else:
+                                it3 = "struct X(%s);" % ", ".join((mark if j == pos else "") + "u8" for j in range(n))
+                            rej.append((n, [co] + traits if pos == 0 else traits + [co], it3))
     rr = dx.expand([{"k": "expand", "id": i, "entry": "attr" if i % 2 == 0 else "derive", "attr": ", ".join(t) if i % 2 == 0 else "",
                      "item": it if i % 2 == 0 else "#[derive_ex(%s)] %s" % (", ".join(t), it)} for i, (n, t, it) in enumerate(rej)])
     for (nf, traits, item), r in zip(rej, rr):
-        nimpl = sum(1 for x in r.get("items", []) if x["kind"] == "impl")
+        dtraits = [t for t in traits if t in ("Deref", "DerefMut")]
+        nimpl = sum(1 for x in r.get("items", []) if x["kind"] == "impl" and (x.get("trait") or "").split("::")[-1] in ("Deref", "DerefMut"))
         nerr = sum(1 for x in r.get("items", []) if x["kind"] == "compile_error")
-        # every requested trait must be refused (arity != 1) or generated (arity 1)
-        rejected = nimpl == 0 and nerr >= 1
-        accepted = nimpl == len(traits) and nerr == 0
+        # every requested Deref / DerefMut must be refused (arity != 1) or generated (arity 1); co-derived traits are not looked at
+        rejected = nimpl == 0 and nerr >= len(dtraits)
+        accepted = nimpl == len(dtraits) and nerr == 0
         events.append({"ev": "deref", "nfields": nf, "rejected": rejected if (rejected or accepted) else (nf == 1),
                        "same_address": True, "target_is_field_type": True, "mut_same_address": True, "write_lands": True})
         emeta.append({"case": (nf, traits, item), "idx": None})
